@@ -125,6 +125,13 @@ def alphabet(tier):
     for tag, raw in (("notjson", "{nope"), ("array", "[1, 2]"), ("string", "\"hello\""), ("null", "null"), ("number", "5")):
         c("create-body-" + tag, "CreateStateMachine", None, "any4xx", raw=raw)
         c("start-body-" + tag, "StartExecution", None, "any4xx", raw=raw)
+    # bodies that are not even text / not complete, for every kind of action (the body is decoded before the action is looked at)
+    for act in ("CreateStateMachine", "UpdateStateMachine", "StartExecution", "DescribeStateMachine", "ListStateMachines", "DeleteStateMachine",
+                "DescribeExecution", "ListExecutions", "StopExecution", "GetExecutionHistory", "SendTaskSuccess", "SendTaskFailure", "SendTaskHeartbeat"):
+        c("body-truncated-" + act, act, None, "any4xx", raw=json.dumps({"stateMachineArn": sm("ma"), "name": "e9", "definition": S1})[:-7])
+        c("body-empty-" + act, act, None, "any4xx", raw="")
+        c("body-latin1-" + act, act, None, "any4xx", raw_hex='{"name": "caf\u00e9"}'.encode("latin-1").hex())
+        c("body-binary-" + act, act, None, "any4xx", raw_hex=b"\x1f\x8b\x08\x00\xfe\xff\x80\x81".hex())
     c("unknown-action", "FrobnicateStateMachine", {}, "any4xx")
     c("bad-content-type", "ListStateMachines", {}, "any4xx", content_type="application/json")
     c("bad-target", "ListStateMachines", {}, "any4xx", target="Nope.ListStateMachines")
@@ -308,7 +315,7 @@ class Sut(object):
     def call(self, c):
         self.w.clock.now += 1.0
         now = self.w.clock.now
-        st, js, text = self.api.call(c["action"], c["params"], raw=c.get("raw"), content_type=c.get("content_type", "application/x-amz-json-1.0"), target=c.get("target"))
+        st, js, text = self.api.call(c["action"], c["params"], raw=bytes.fromhex(c["raw_hex"]) if c.get("raw_hex") is not None else c.get("raw"), content_type=c.get("content_type", "application/x-amz-json-1.0"), target=c.get("target"))
         self.w.run(max_steps=2000)
         return now, st, js, text
 
